@@ -73,6 +73,7 @@ type Pool struct {
 	Methods []string `json:"methods"`
 	URLs    []Op     `json:"urls"` // URL calls made after the request probes (C10)
 	RT      bool     `json:"rt"`   // round trip: build the URL of every dispatched route from its captured parameters
+	TH      []Op     `json:"th"`   // requests handed to the bundled Trace helper (C18)
 }
 
 type Op struct {
@@ -155,6 +156,8 @@ type recW struct {
 	status int
 	wrote  bool
 	body   int
+	keep   bool
+	buf    []byte
 }
 
 func newRecW() *recW                { return &recW{hdr: http.Header{}} }
@@ -169,6 +172,9 @@ func (w *recW) Write(b []byte) (int, error) {
 		w.WriteHeader(200)
 	}
 	w.body += len(b)
+	if w.keep {
+		w.buf = append(w.buf, b...)
+	}
 	return len(b), nil
 }
 func (w *recW) finish() {
